@@ -116,8 +116,14 @@ func (n *ModelNode) info() map[string]interface{} {
 		clone = n.clone
 		remain = 1024 - (len(n.chain) + 1)
 	}
+	// action links of the actions valid in the current state, as the real router's schema writes them
+	actions := map[string]string{}
+	host := strings.TrimPrefix(n.Addr, "tcp://")
+	for a := range actionsByState[n.state()] {
+		actions[a] = "http://" + host + "/v1/replicas/1?action=" + a
+	}
 	return map[string]interface{}{
-		"id": "1", "type": "replica",
+		"id": "1", "type": "replica", "actions": actions,
 		"state": n.state(), "size": strconv.FormatInt(n.size, 10), "sectorSize": 512, "chain": chain, "replicamode": mode,
 		"revisioncounter": strconv.FormatInt(rev, 10), "remainsnapshots": remain, "clonestatus": clone, "checkpoint": n.checkpoint,
 		"rebuilding": n.rebuilding, "dirty": n.dirty,
